@@ -83,18 +83,24 @@ impl From<Amount> for AttoTokens {
     }
 }
 
+/// Parses a string made only of ASCII decimal digits.
+/// (`Amount::from_str` also accepts the radix prefixes `0x`, `0o`, `0b` and skips `_`.)
+fn parse_decimal_digits(s: &str) -> Option<Amount> {
+    if !s.bytes().all(|b| b.is_ascii_digit()) {
+        return None;
+    }
+    Amount::from_str_radix(s, 10).ok()
+}
+
 impl FromStr for AttoTokens {
     type Err = EvmError;
 
     fn from_str(value_str: &str) -> Result<Self> {
         let mut itr = value_str.splitn(2, '.');
         let converted_units = {
-            let units = itr
-                .next()
-                .and_then(|s| s.parse::<Amount>().ok())
-                .ok_or_else(|| {
-                    EvmError::FailedToParseAttoToken("Can't parse token units".to_string())
-                })?;
+            let units = itr.next().and_then(parse_decimal_digits).ok_or_else(|| {
+                EvmError::FailedToParseAttoToken("Can't parse token units".to_string())
+            })?;
 
             units
                 .checked_mul(Amount::from(TOKEN_TO_RAW_CONVERSION))
@@ -107,7 +113,7 @@ impl FromStr for AttoTokens {
             if remainder_str.is_empty() {
                 Amount::ZERO
             } else {
-                let parsed_remainder = remainder_str.parse::<Amount>().map_err(|_| {
+                let parsed_remainder = parse_decimal_digits(remainder_str).ok_or_else(|| {
                     EvmError::FailedToParseAttoToken("Can't parse token remainder".to_string())
                 })?;
 
